@@ -5,7 +5,8 @@ loaded netlist carries the defined areas / centroids / rectangle lists / wire-le
 WellFormed and the assertion-by-assertion Read agree, and that EVERY single injection of every listed defect class
 (Fpef!Inject: unknown module in a net, non-positive weight or area, soft without area, hard with area / without
 rectangles / with overlapping rectangles, unknown attribute, invalid name, one-pin net, non-positive rectangle size,
-at every position) yields an ill-formed document that Read refuses; it then emits every document with its injections.
+at every position) yields an ill-formed document that Read refuses.  The same specification emits every document
+of the universe (Fpef_gen_*), and FpefTrace!InjectSpec prints Inject(doc) for each document that is replayed.
 
 Each document is rendered as FPEF text under the float embeddings and loaded with frame.netlist.Netlist; the netlist
 is observed through modules / edges / rectangles / fixed_rectangles() / wire_length, pulled back to the lattice, and
@@ -93,7 +94,7 @@ def decide(ctx: Ctx, cases: list[dict]):
                 owners[key] = []
                 excs[key] = [e.get("exc", "") for e in evs]
             owners[key].append(en)
-    verdicts = tlc.validate_traces(ctx, "FpefTrace", "FpefTrace", list(traces.values()), chunk=1500)
+    verdicts = tlc.validate_traces(ctx, "FpefTrace", "FpefTrace", list(traces.values()), chunk=4000)
     for key, v in verdicts.items():
         t = traces[key]
         ctx.count(key, nontrivial=nontrivial(t["doc"]) or len(t["events"]) > 1, n=0)
@@ -122,8 +123,14 @@ def decide(ctx: Ctx, cases: list[dict]):
     return traces
 
 
-def inject_with_tlc(ctx: Ctx, docs: list[dict]) -> list[list[dict]]:
-    """Fpef!Inject for harness-made documents (FpefTrace!InjectSpec); also checks that they are well-formed"""
+def inject_with_tlc(ctx: Ctx, docs: list[dict], chunk: int = 6000) -> list[list[dict]]:
+    """Fpef!Inject printed by TLC for each document (FpefTrace!InjectSpec); also checks that TLC finds each document
+    inside the modelled language, well-formed and accepted by the model's reader (the quantifier)"""
+    if len(docs) > chunk:
+        out: list = []
+        for i in range(0, len(docs), chunk):
+            out += inject_with_tlc(ctx, docs[i:i + chunk], chunk)
+        return out
     batch = [{"id": str(i), "doc": d, "events": []} for i, d in enumerate(docs)]
     f = ctx.path(f"inject-{os.getpid()}.json")
     with open(f, "w") as fh:
@@ -152,22 +159,23 @@ def run(ctx: Ctx) -> int:
         return ctx.finish("model_checking", "replay of one recorded document (and defect)")
     tier = ctx.tier
     tlc.model_check(ctx, "Fpef", f"Fpef_c05_mc_{tier}", vacuity_ignore=("Emit", "Save", "Reload", "Resave"))
-    gen = [fix_json(r) for r in tlc.generate(ctx, "Fpef", f"Fpef_c05_gen_{tier}")]
+    gen = [fix_json(r) for r in tlc.generate(ctx, "Fpef", f"Fpef_gen_{tier}")]
     rng = random.Random(ctx.seed * 1000003 + 5)
-    budget = 2600 if tier == "quick" else 40000
+    budget = 2600 if tier == "quick" else 20000
     if len(gen) > budget:     # the model check covers all; replay a seeded sample (all one-module documents kept)
         single = [g for g in gen if len(g["doc"]["mods"]) == 1]
         rest = [g for g in gen if len(g["doc"]["mods"]) != 1]
         picked = single + rng.sample(rest, budget - len(single))
     else:
         picked = gen
-    cases = [{"doc": g["doc"], "patches": g["patches"], "embs": embeddings_for(i, g["doc"], tier),
-              "defect_embs": defect_embeddings_for(i, g["doc"], tier), "salt": i}
-             for i, g in enumerate(picked)]
     nrand = 150 if tier == "quick" else 2500
     rdocs = [random_doc(rng) for _ in range(nrand)]
-    rpatches = inject_with_tlc(ctx, rdocs)
-    cases += [{"doc": d, "patches": ps, "embs": list(ALL), "salt": i} for i, (d, ps) in enumerate(zip(rdocs, rpatches))]
+    # every injection comes from the one definition Fpef!Inject, printed by TLC for the chosen documents
+    patches = inject_with_tlc(ctx, [g["doc"] for g in picked] + rdocs)
+    cases = [{"doc": g["doc"], "patches": patches[i], "embs": embeddings_for(i, g["doc"], tier),
+              "defect_embs": defect_embeddings_for(i, g["doc"], tier), "salt": i}
+             for i, g in enumerate(picked)]
+    cases += [{"doc": d, "patches": patches[len(picked) + i], "embs": list(ALL), "salt": i} for i, d in enumerate(rdocs)]
     per_class = {k: 0 for k in CLASSES}
     for c in cases:
         for p in c["patches"]:
